@@ -57,6 +57,8 @@ type drun struct {
 	panics    []string
 	delivered int64
 	gids      map[uint16]uint64
+	// noFIFO: any queued message of a link may be delivered next (the backends' OnMsg has no ordering contract)
+	noFIFO bool
 }
 
 func newDrun(sch scheme, parties []uint16, t int, rng *rand.Rand) *drun {
@@ -155,8 +157,12 @@ func (d *drun) deliverLoop() {
 			return keys[i][1] < keys[j][1]
 		})
 		k := keys[d.rng.Intn(len(keys))]
-		m := d.q[k][0]
-		d.q[k] = d.q[k][1:]
+		pos := 0
+		if d.noFIFO {
+			pos = d.rng.Intn(len(d.q[k]))
+		}
+		m := d.q[k][pos]
+		d.q[k] = append(d.q[k][:pos:pos], d.q[k][pos+1:]...)
 		kg := d.kgs[m.to]
 		if kg != nil {
 			d.log = append(d.log, devent{Kind: "ONMSG", Node: m.to, Peer: m.from, Round: d.round(m.to, m.data), Bcast: m.bcast})
